@@ -80,6 +80,7 @@ type Result struct {
 	Samples            []interface{}  `json:"samples"`
 	Hist               map[string]int `json:"histogram"`
 	Failures           []Failure      `json:"failures"`
+	Broken             []Failure      `json:"broken"` // broken correspondences that are NOT property violations by themselves
 	OpLines            int            `json:"op_lines"`
 	Notes              []string       `json:"notes,omitempty"`
 	WallS              float64        `json:"wall_s"`
@@ -120,7 +121,7 @@ func Start(prop, rule string) *Run {
 	}
 	r := &Run{Prop: prop, Seed: *seed, Tier: *tier, OutDir: *out, Replay: *replay, Search: *search,
 		R: NewRand(*seed), nontriv: map[string]struct{}{}, start: time.Now(), maxSamp: 6}
-	r.res = Result{Property: prop, Seed: *seed, Tier: *tier, Rule: rule, Hist: map[string]int{}, Samples: []interface{}{}, Failures: []Failure{}}
+	r.res = Result{Property: prop, Seed: *seed, Tier: *tier, Rule: rule, Hist: map[string]int{}, Samples: []interface{}{}, Failures: []Failure{}, Broken: []Failure{}}
 	var err error
 	if r.opsF, err = os.Create(filepath.Join(*out, "ops.txt")); err != nil {
 		panic(err)
@@ -158,9 +159,11 @@ func (r *Run) Case() { r.res.Evaluations++ }
 // NonTrivial records that the case with this canonical key is non-trivial by the property's rule.
 func (r *Run) NonTrivial(key string) { r.nontriv[key] = struct{}{} }
 
-func (r *Run) Count(k string)          { r.res.Hist[k]++ }
-func (r *Run) CountN(k string, n int)  { r.res.Hist[k] += n }
-func (r *Run) Note(format string, a ...interface{}) { r.res.Notes = append(r.res.Notes, fmt.Sprintf(format, a...)) }
+func (r *Run) Count(k string)         { r.res.Hist[k]++ }
+func (r *Run) CountN(k string, n int) { r.res.Hist[k] += n }
+func (r *Run) Note(format string, a ...interface{}) {
+	r.res.Notes = append(r.res.Notes, fmt.Sprintf(format, a...))
+}
 
 func (r *Run) Sample(v interface{}) {
 	if len(r.res.Samples) < r.maxSamp {
@@ -183,6 +186,22 @@ func (r *Run) Fail(key, what string, c interface{}) {
 }
 
 func (r *Run) Failed() bool { return len(r.res.Failures) > 0 }
+
+// Broken records that the real code left the envelope the model was built from (an internal-invariant probe
+// failed, say) on a case where the property itself was NOT seen to fail. ./check treats it as a broken
+// correspondence: it searches for a real failing input and otherwise reports `no-failing-input-found`.
+func (r *Run) Broken(key, what string, c interface{}) {
+	n := 0
+	for _, f := range r.res.Broken {
+		if f.Key == key {
+			n++
+		}
+	}
+	r.res.Hist["broken:"+key]++
+	if n < 2 {
+		r.res.Broken = append(r.res.Broken, Failure{Key: key, What: what, Case: c})
+	}
+}
 
 // LoadReplay decodes the `case` member of the replay file into v.
 func (r *Run) LoadReplay(v interface{}) {
